@@ -597,6 +597,9 @@ def norm_2(a):
     a = to_mat(a)
     if a.r != 1 and a.c != 1:
         return scalar(opaque("norm2mat", *a.flat()), a.kind)
+    nz = [p for p in a.flat() if p.t]
+    if len(nz) == 1:
+        return scalar(un("fabs", nz[0]), a.kind)      # CasADi: norm_2 of a (structurally) single entry is fabs
     return scalar(un("sqrt", sumsqr(a).s()), a.kind)
 
 
